@@ -50,6 +50,83 @@ Fixpoint gen (bs : list block) (card : secs) (tr : trace) (st : stack) : stack *
 Definition generate (bs : list block) : res secs := snd (gen bs [] [] []).
 
 (* ------------------------------------------------------------------ *)
+(* the same loop on already converted blocks (no Markdown instance)     *)
+
+Inductive item := IH (lvl : Z) (title : pstr) | IC (text : pstr).
+
+Fixpoint build (its : list item) (card : secs) (tr : trace) : res secs :=
+  match its with
+  | [] => Ok card
+  | IH lvl t :: its' =>
+      let tr' := (lvl, t) :: popge lvl tr in
+      build its' (add_section (trace_path tr') card) tr'
+  | IC t :: its' =>
+      match tr with
+      | [] => Raise EValue
+      | _ => build its' (add_content (trace_path tr) t card) tr
+      end
+  end.
+
+(* what a block contributes when it is converted by a FRESH Markdown instance *)
+Definition item_of (b : block) : list item :=
+  match snd (mdb b []) with
+  | Ok t => match b with Header lvl _ _ => [IH lvl (post t)] | _ => [IC (post t)] end
+  | Raise _ => []
+  end.
+Definition doc_items (bs : list block) : list item := flat_map item_of bs.
+
+(* ------------------------------------------------------------------ *)
+(* SPECIFICATION (property C15): one section per header, nested under   *)
+(* the nearest preceding header of lower level, title verbatim; every   *)
+(* other block's text once, in order, in the section it follows         *)
+
+(* prev_rev = the headers before this one, NEAREST FIRST.  The chain of
+   ancestors of a header of level lvl: the nearest preceding header of a
+   lower level, then that one's nearest preceding header of lower level ... *)
+Fixpoint ancs (prev_rev : list (Z * pstr)) (lvl : Z) : list (Z * pstr) :=
+  match prev_rev with
+  | [] => []
+  | (l, t) :: r => if (l <? lvl)%Z then (l, t) :: ancs r l else ancs r lvl
+  end.
+Definition spec_path (prev_rev : list (Z * pstr)) (lvl : Z) (t : pstr) : list pstr :=
+  rev (map snd (ancs prev_rev lvl)) ++ [t].
+
+Fixpoint texts_until_header (its : list item) : list pstr :=
+  match its with
+  | IC t :: r => t :: texts_until_header r
+  | _ => []
+  end.
+
+(* Section.content after _add_content was called with each text in turn *)
+Definition acc_content (ts : list pstr) : pstr := fold_left add_text ts [].
+
+Fixpoint spec_sections (prev_rev : list (Z * pstr)) (its : list item) : list (list pstr * pstr) :=
+  match its with
+  | [] => []
+  | IH l t :: r => (spec_path prev_rev l t, acc_content (texts_until_header r))
+                   :: spec_sections ((l, t) :: prev_rev) r
+  | IC _ :: r => spec_sections prev_rev r
+  end.
+Definition spec_outline (its : list item) : list (list pstr) := map fst (spec_sections [] its).
+
+(* the guard left by D20: no two headers with the same title under the same parent *)
+Fixpoint path_eqb (a b : list pstr) : bool :=
+  match a, b with
+  | [], [] => true
+  | x :: a', y :: b' => pstr_eqb x y && path_eqb a' b'
+  | _, _ => false
+  end.
+Fixpoint path_mem (p : list pstr) (l : list (list pstr)) : bool :=
+  match l with [] => false | q :: l' => path_eqb p q || path_mem p l' end.
+Fixpoint nodupb (l : list (list pstr)) : bool :=
+  match l with [] => true | p :: l' => negb (path_mem p l') && nodupb l' end.
+Definition headers_ok (bs : list block) : bool := nodupb (spec_outline (doc_items bs)).
+
+(* the dropped leading empty texts of acc_content *)
+Fixpoint drop_empty (ts : list pstr) : list pstr :=
+  match ts with [] :: r => drop_empty r | _ => ts end.
+
+(* ------------------------------------------------------------------ *)
 (* canonical texts for the correspondence                              *)
 
 Definition show_err (e : err) : pstr :=
